@@ -93,8 +93,8 @@ pub fn run(ctx: &mut Ctx) {
     let mut fixed: Vec<EncCase> = Vec::new();
     for n in [0usize, 1, 2, 6, 7, 3000, 3116, 3117, 1555, 1556, 1557, 2000, 5000] {
         for list in ["default", "all", "empty", "Square144", "Square10", "Square10,Square12", "Square132,Square144"] {
-            fixed.push(EncCase { input: digits(n), list: list.into(), mask: 63, macros: true, fnc1: false, eci: None, order: 0, prelude: 0, skipdef: false });
-            fixed.push(EncCase { input: vec![0xA5; n.min(1700)], list: list.into(), mask: 63, macros: true, fnc1: false, eci: None, order: 0, prelude: 0, skipdef: false });
+            fixed.push(EncCase { input: digits(n), list: list.into(), mask: 63, macros: true, fnc1: false, eci: None, order: 0, prelude: 0, skipdef: false, entry: 0 });
+            fixed.push(EncCase { input: vec![0xA5; n.min(1700)], list: list.into(), mask: 63, macros: true, fnc1: false, eci: None, order: 0, prelude: 0, skipdef: false, entry: 0 });
         }
     }
     for head in [inputs::MACRO05, inputs::MACRO06] {
@@ -102,13 +102,13 @@ pub fn run(ctx: &mut Ctx) {
             let mut v = head.to_vec();
             v.extend(std::iter::repeat(b'A').take(extra));
             for fnc1 in [false, true] {
-                fixed.push(EncCase { input: v.clone(), list: "default".into(), mask: 63, macros: true, fnc1, eci: None, order: 0, prelude: 0, skipdef: false });
+                fixed.push(EncCase { input: v.clone(), list: "default".into(), mask: 63, macros: true, fnc1, eci: None, order: 0, prelude: 0, skipdef: false, entry: 0 });
                 let mut w = v.clone();
                 w.extend_from_slice(inputs::TRAIL);
-                fixed.push(EncCase { input: w, list: "default".into(), mask: 63, macros: true, fnc1, eci: None, order: 0, prelude: 0, skipdef: false });
+                fixed.push(EncCase { input: w, list: "default".into(), mask: 63, macros: true, fnc1, eci: None, order: 0, prelude: 0, skipdef: false, entry: 0 });
             }
             for cut in 1..head.len() {
-                fixed.push(EncCase { input: head[..cut].to_vec(), list: "default".into(), mask: 63, macros: true, fnc1: false, eci: None, order: 0, prelude: 0, skipdef: false });
+                fixed.push(EncCase { input: head[..cut].to_vec(), list: "default".into(), mask: 63, macros: true, fnc1: false, eci: None, order: 0, prelude: 0, skipdef: false, entry: 0 });
             }
         }
     }
@@ -124,7 +124,7 @@ pub fn run(ctx: &mut Ctx) {
         for s in &smalls {
             for list in ["default", "empty", "Square16", "Rect8x18,Square14"] {
                 if ctx.mine(item) {
-                    eval(ctx, &EncCase { input: s.clone(), list: list.into(), mask, macros: true, fnc1: false, eci: None, order: 0, prelude: 0, skipdef: false }, "all_64_subsets");
+                    eval(ctx, &EncCase { input: s.clone(), list: list.into(), mask, macros: true, fnc1: false, eci: None, order: 0, prelude: 0, skipdef: false, entry: 0 }, "all_64_subsets");
                 }
                 item += 1;
             }
@@ -143,7 +143,7 @@ pub fn run(ctx: &mut Ctx) {
                 let cap = a.data.max(b.data);
                 for (k, n) in [cap, cap * 2, cap * 2 + 1, cap - 1, a.data.min(b.data)].iter().enumerate() {
                     let input = if k % 2 == 0 { digits(*n) } else { (0..*n).map(|i| b'A' + (i % 26) as u8).collect() };
-                    eval(ctx, &EncCase { input, list: format!("{},{}", a.name, b.name), mask: 63, macros: false, fnc1: false, eci: None, order: 0, prelude: 0, skipdef: false }, "ordered_pairs_of_sizes");
+                    eval(ctx, &EncCase { input, list: format!("{},{}", a.name, b.name), mask: 63, macros: false, fnc1: false, eci: None, order: 0, prelude: 0, skipdef: false, entry: 0 }, "ordered_pairs_of_sizes");
                 }
             }
             item += 1;
